@@ -9,12 +9,13 @@ multiples of π/8 (kept in units of π), hardware parameters exact rationals.
 * `load setup=linear|circular n=N mode=ASAP|ALAP|none pre=0|1 phase0=r sx=r,.. sz=r,.. sxsy=r,..|- gates=<list>`
     the whole `load_circuit`: transpile (model of C13 with the given `pre`), compile, label check,
     schedule (model of C05/C11) →
-    `ok phase=<r> native=<gate list> instrs=<k>:<label>:<coeff>:<dur>:<start>;…`   (k = index of the gate in `native`;
-    label `-` for an IDLE instruction; `phase` in units of π) |
+    `ok phase=<r> native=<gate list> instrs=<k>:<NAME>/<targets>:<label>:<coeff>:<dur>:<start>;…`   (k = position in the
+    instruction list, compile order; label `-` for an IDLE instruction; `phase` in units of π) |
     `err transpile:<kind>` | `err unsupported|index|key|shape|noPulse|symbolic|param`
 * `compile …same fields, no pre…`   compile + schedule of the given (already native) gate list, no label check
 * `label setup= n=N a=A b=B`  →  `ok idx=<i> exists=0|1 q=<q0>,<q1> connects=0|1 adjacent=0|1`
-* `tables` → `rules=NAME:<rule>,… resets=0|1 hands=0|1 defaults=sx,sz,sxsy ctl=<prefix>:<coef at pi=1>:<op>,…`
+* `tables` → `rules=NAME:<rule>,… resets=0|1 hands=0|1 defaults=sx,sz,sxsy ctl=<prefix>:<coef at pi=1>:<op>,…
+    linear=<native>:<topo> circular=<native>:<topo> swap=<param key>:<label prefix>`
 -/
 open QipVerif QipVerif.Proto QipVerif.GateIO QipVerif.RatProto QipVerif.SpinChain QipVerif.Gen.SC
 
@@ -139,7 +140,11 @@ def step (line : String) : String :=
     let fr := fun (p : Int × Nat) => showRat ((p.1 : Rat) / (p.2 : Rat))
     let ctl := s!"{ctlA_prefix}:{showRat (ctlA_coef (1 : Rat))}:{showPauli ctlA_op},{ctlB_prefix}:{showRat (ctlB_coef (1 : Rat))}:{showPauli ctlB_op},{ctlG_prefix}:{showRat (ctlG_coef (1 : Rat))}:" ++
       "+".intercalate (ctlG_terms.map fun (s, a, b) => s!"{s}{showPauli a}{showPauli b}")
-    s!"ok rules={rules} resets={b2 compileResetsPhase} hands={b2 handsBackPhase} defaults={fr default_sx},{fr default_sz},{fr default_sxsy} ctl={ctl}"
+    let spec := fun (d : Transpile.Device) =>
+      let sp := Gen.deviceSpec d
+      (match sp.native with | none => "None" | some l => ",".intercalate (l.map GName.toString)) ++ ":" ++
+        (match sp.topo with | none => "none" | some .linear => "linear" | some .circular => "circular" | some .other => "other")
+    s!"ok rules={rules} resets={b2 compileResetsPhase} hands={b2 handsBackPhase} defaults={fr default_sx},{fr default_sz},{fr default_sxsy} ctl={ctl} linear={spec .linearSpinChain} circular={spec .circularSpinChain} swap={swapParamKey}:{swapPrefix}"
   | _ => "bad-op"
 
 def main : IO Unit := serve step
